@@ -123,7 +123,12 @@ func parseNumber(buf []byte) (id, val uint64) {
 		floatTag |= uint64(FloatOverflowedInteger)
 	}
 
-	if pos > 1 && buf[0] == '0' && isNumberRune[buf[1]]&isFloatOnlyFlag == 0 {
+	if buf[0] == '-' {
+		if pos > 2 && buf[1] == '0' && isNumberRune[buf[2]]&isFloatOnlyFlag == 0 {
+			// Same after a minus sign.
+			return 0, 0
+		}
+	} else if pos > 1 && buf[0] == '0' && isNumberRune[buf[1]]&isFloatOnlyFlag == 0 {
 		// Float can only have have a leading 0 when followed by a period.
 		return 0, 0
 	}
